@@ -1,33 +1,83 @@
 """In-process fake of the Databricks dbutils.fs API used by dds.codecs.databricks.DBFSStore (trusted harness part).
-Files live in a dict keyed by the URI string; 'file://' URIs are the local file system."""
+Files live in a dict keyed by the URI string; 'file://' URIs are the local file system.
+
+Fault injection (used by drive_dbfs_fault.py): `arm(n, mode, exc)` makes the n-th file-system call from now on fail once:
+  mode 'before' : the call raises and has no effect (request never reached the service)
+  mode 'after'  : the call has its full effect and then raises (the answer was lost / the process was killed on return)
+  mode 'torn'   : cp (and put when torn_put is set) leaves a truncated destination and raises
+  exc 'error'   : an ordinary Exception (transient service error: code that catches Exception sees it)
+  exc 'kill'    : a BaseException (the process is interrupted: no handler short of a bare except sees it)
+Without arm() the behaviour is the one of the plain fake."""
 import os
 import shutil
+
+
+class InjectedFault(Exception):
+    pass
+
+
+class InjectedKill(BaseException):
+    pass
 
 
 class FakeFS(object):
     def __init__(self):
         self.files = {}      # uri -> bytes
         self.calls = []      # recorded operations
+        self.fault = None    # armed fault: {"n": calls left before the faulty one, "mode", "exc", "torn_put"}
+        self.fired = None    # the call the fault hit
+
+    # -- fault injection
+    def arm(self, n, mode="before", exc="error", torn_put=False):
+        self.fault = {"n": int(n), "mode": mode, "exc": exc, "torn_put": torn_put}
+        self.fired = None
+
+    def disarm(self):
+        self.fault = None
+
+    def _gate(self, *call):
+        """None for an ordinary call; the mode when this call is the faulty one."""
+        self.calls.append(call)
+        if self.fault is None:
+            return None
+        self.fault["n"] -= 1
+        if self.fault["n"] != 0:
+            return None
+        self.fired = call
+        return self.fault["mode"]
+
+    def _raise(self, call):
+        f, self.fault = self.fault, None
+        msg = "injected fault (%s, %s) at %s" % (f["mode"], f["exc"], " ".join(str(c) for c in call))
+        raise (InjectedKill if f["exc"] == "kill" else InjectedFault)(msg)
 
     @staticmethod
     def _local(uri):
         return uri[len("file://"):] if uri.startswith("file://") else None
 
     def head(self, path, max_bytes=65536):
-        self.calls.append(("head", path))
+        if self._gate("head", path) is not None:
+            self._raise(("head", path))
         if path not in self.files:
             raise Exception("java.io.FileNotFoundException: " + path)
         return self.files[path][:max_bytes].decode("utf-8")
 
     def put(self, path, contents, overwrite=False):
-        self.calls.append(("put", path))
+        mode = self._gate("put", path)
+        if mode == "before" or (mode == "torn" and not self.fault["torn_put"]):
+            self._raise(("put", path))
         if path in self.files and not overwrite:
             raise Exception("FileAlreadyExistsException: " + path)
-        self.files[path] = contents.encode("utf-8")
+        data = contents.encode("utf-8")
+        self.files[path] = data[:len(data) // 2] if mode == "torn" else data
+        if mode is not None:
+            self._raise(("put", path))
         return True
 
     def cp(self, src, dst, recurse=False):
-        self.calls.append(("cp", src, dst))
+        mode = self._gate("cp", src, dst)
+        if mode == "before":
+            self._raise(("cp", src, dst))
         ls, ld = self._local(src), self._local(dst)
         if ls is not None:
             data = open(ls, "rb").read()
@@ -35,17 +85,25 @@ class FakeFS(object):
             if src not in self.files:
                 raise Exception("java.io.FileNotFoundException: " + src)
             data = self.files[src]
+        if mode == "torn":
+            data = data[:len(data) // 2]
         if ld is not None:
             with open(ld, "wb") as f:
                 f.write(data)
         else:
             self.files[dst] = data
+        if mode is not None:
+            self._raise(("cp", src, dst))
         return True
 
     def rm(self, path, recurse=False):
-        self.calls.append(("rm", path))
+        mode = self._gate("rm", path)
+        if mode in ("before", "torn"):
+            self._raise(("rm", path))
         for k in [k for k in self.files if k == path or (recurse and k.startswith(path.rstrip("/") + "/"))]:
             del self.files[k]
+        if mode is not None:
+            self._raise(("rm", path))
         return True
 
 
